@@ -113,7 +113,7 @@ func (x *Exec) entryReqs(st *State, p *ssa.Parameter, term string) []ModelReq {
 		switch u := t.Underlying().(type) {
 		case *types.Pointer:
 			el := u.Elem()
-			if x.leafCount(el) > 80 {
+			if x.valueLeafCount(el) > 80 {
 				return
 			}
 			out = append(out, ModelReq{Label: label + ":isnil", Term: eq(v, "nil")})
@@ -157,7 +157,7 @@ func (x *Exec) entryReqs(st *State, p *ssa.Parameter, term string) []ModelReq {
 				case *types.Interface:
 					out = append(out, ModelReq{Label: "tag:" + label + "." + f.Name(), Term: sx("itag", c.fieldOf(u, v, i))})
 				default:
-					if x.leafCount(f.Type()) <= 4 {
+					if x.valueLeafCount(f.Type()) <= 4 {
 						out = append(out, ModelReq{Label: label + "." + f.Name(), Term: c.fieldOf(u, v, i)})
 					}
 				}
@@ -168,4 +168,23 @@ func (x *Exec) entryReqs(st *State, p *ssa.Parameter, term string) []ModelReq {
 	}
 	walk(name, p.Type(), term, 0)
 	return out
+}
+
+// number of SMT-level components of a value of type t (a byte array is one bit-vector)
+func (x *Exec) valueLeafCount(t types.Type) int64 {
+	t = types.Unalias(t)
+	if _, ok := isByteArray(t); ok && !x.c.Int {
+		return 1
+	}
+	switch u := t.Underlying().(type) {
+	case *types.Struct:
+		var n int64
+		for i := 0; i < u.NumFields(); i++ {
+			n += x.valueLeafCount(u.Field(i).Type())
+		}
+		return n
+	case *types.Array:
+		return u.Len() * x.valueLeafCount(u.Elem())
+	}
+	return 1
 }
